@@ -46,7 +46,7 @@ template<class T> struct Machine : IMachine {
     if (o == "mr.filter") { size_t k = toU(t[1]); mr[k]->filterWithin(Range<T>(val(t[2]), val(t[3]))); return showMr(k); }
     if (o == "mr.clear") { size_t k = toU(t[1]); mr[k]->clear(); return showMr(k); }
     if (o == "mr.copy") { size_t k = toU(t[1]), j = toU(t[2]); std::unique_ptr<MultiRange<T>> c(new MultiRange<T>(*mr[k])); mr[j] = std::move(c); return showMr(j); }
-    if (o == "mr.assign") { size_t k = toU(t[1]), j = toU(t[2]); if (k != j) *mr[j] = *mr[k]; return showMr(j); }
+    if (o == "mr.assign") { size_t k = toU(t[1]), j = toU(t[2]); *mr[j] = *mr[k]; return showMr(j); }
     if (o == "mr.get") { size_t k = toU(t[1]); return showMr(k); }
     if (o == "mr.at" || o == "rs.at") {
       size_t k = toU(t[1]), i = toU(t[2]);
@@ -59,7 +59,7 @@ template<class T> struct Machine : IMachine {
     if (o == "rs.filter") { size_t k = toU(t[1]); rs[k]->filterWithin(Range<T>(val(t[2]), val(t[3]))); return showRs(k); }
     if (o == "rs.clear") { size_t k = toU(t[1]); rs[k]->clear(); return showRs(k); }
     if (o == "rs.copy") { size_t k = toU(t[1]), j = toU(t[2]); std::unique_ptr<RangeSet<T>> c(new RangeSet<T>(*rs[k])); rs[j] = std::move(c); return showRs(j); }
-    if (o == "rs.assign") { size_t k = toU(t[1]), j = toU(t[2]); if (k != j) *rs[j] = *rs[k]; return showRs(j); }
+    if (o == "rs.assign") { size_t k = toU(t[1]), j = toU(t[2]); *rs[j] = *rs[k]; return showRs(j); }
     if (o == "rs.get") { size_t k = toU(t[1]); return showRs(k); }
     if (o == "r.pred") {
       Range<T> x(val(t[1]), val(t[2])), r(val(t[3]), val(t[4]));
